@@ -32,6 +32,8 @@ package parser
 
 import (
 	"fmt"
+	"math"
+	"strconv"
 	"strings"
 	"unicode"
 	"unicode/utf16"
@@ -566,6 +568,45 @@ func (l *lexer) setResult(lax bool, node ast.Node) {
 		l.errors = append(l.errors, err.Error())
 	}
 	l.result = ast
+}
+
+// newNumber returns the node for the numeric literal text, an INT_P token if
+// integer is true and a NUMERIC_P token otherwise. A literal that cannot be
+// represented is reported as a parse error.
+func (l *lexer) newNumber(text string, integer bool) ast.Node {
+	node, err := ast.NewNumber(text, integer)
+	if err != nil {
+		l.Error(err.Error())
+		return ast.NewConst(ast.ConstNull)
+	}
+	return node
+}
+
+// newInteger returns the IntegerNode for the INT_P token text where the
+// grammar requires an integer (method arguments). A value beyond int64 is
+// reported as a parse error.
+func (l *lexer) newInteger(text string) ast.Node {
+	node, err := ast.NewNumber(text, true)
+	if err == nil {
+		if _, ok := node.(*ast.IntegerNode); !ok {
+			err = fmt.Errorf("integer literal %q is out of range", text) //nolint:err113
+		}
+	}
+	if err != nil {
+		l.Error(err.Error())
+		return ast.NewInteger("0")
+	}
+	return node
+}
+
+// anyLevel converts the INT_P token text of a .** level to an int; a level
+// beyond the int range means unbounded.
+func anyLevel(text string) int {
+	level, err := strconv.ParseInt(text, 0, 64)
+	if err != nil || level > math.MaxInt32 {
+		return math.MaxInt
+	}
+	return int(level)
 }
 
 // setPred indicates that the path being lexed is a predicate path query.
